@@ -154,7 +154,7 @@ struct pct_strategy final : strategy {
   }
 };
 
-enum verdict_kind { V_DONE = 0, V_DEADLOCK = 1, V_STEP_LIMIT = 2 };
+enum verdict_kind { V_DONE = 0, V_DEADLOCK = 1, V_STEP_LIMIT = 2, V_LIVELOCK = 3 };
 
 // Shared-memory page (MAP_SHARED, set up by the driver before fork) where
 // the running execution logs its identity and every non-default decision,
@@ -250,6 +250,7 @@ class scheduler {
   void pool_main(int i);
   void sched_event(evkind k) noexcept;
   int default_choice(evkind k, int cur, unsigned options) const noexcept;
+  unsigned fair_run_ = 0, fair_switches_ = 0;  // fair continuation past the step limit
   void switch_to(int from, int to) noexcept;
   [[noreturn]] void abort_execution(verdict_kind v) noexcept;
 };
@@ -332,6 +333,8 @@ inline void scheduler::run(const std::vector<std::function<void()>>& bodies, str
   preemptions_ = 0;
   spins_ = 0;
   consecutive_spins_ = 0;
+  fair_run_ = 0;
+  fair_switches_ = 0;
   for (auto& b : last_stay_step_) b = 0;
   last_switch_step_ = 1;
   blocked_ = 0;
@@ -418,7 +421,7 @@ inline void scheduler::abort_execution(verdict_kind v) noexcept {
   }
   if (on_abort) on_abort(v);
   std::fflush(nullptr);
-  _exit(v == V_DEADLOCK ? 43 : 44);
+  _exit(v == V_DEADLOCK ? 43 : v == V_LIVELOCK ? 45 : 44);
 }
 
 inline void scheduler::switch_to(int from, int to) noexcept {
@@ -477,7 +480,31 @@ inline void scheduler::sched_event(evkind k) noexcept {
     if (o == 0 || last_stay_step_[me] < last_switch_step_) o |= 1U << me;
     options = o;
   }
-  if (step_ > step_limit) abort_execution(V_STEP_LIMIT);
+  if (step_ > step_limit) {
+    // The schedule so far may have been unfair to the threads that are still unfinished (the default continuation
+    // keeps one thread running until it spins or finishes; random / PCT strategies may starve one).
+    // Continue FAIRLY - the strategy is no longer consulted, every runnable thread gets a quantum of
+    // varying length in round-robin order, spin points yield - for twice the step budget again. An
+    // operation that has still not returned then violates "in every schedule in which each thread
+    // keeps being scheduled, every operation returns".
+    if (step_ > step_limit * 3) abort_execution(V_LIVELOCK);
+    int ch = me;
+    const bool me_runnable = ((runnable_ >> me) & 1U) != 0;  // false at FINISH / BLOCK events
+    if (k == EV_SPIN) {
+      ch = default_choice(EV_SPIN, me, options);
+    } else if (!me_runnable || ++fair_run_ > 48 + 29 * (fair_switches_ % 7)) {
+      ch = default_choice(EV_SPIN, me, runnable_ & ~(1U << me));
+    }
+    if (ch < 0 || !((runnable_ >> ch) & 1U)) ch = me_runnable ? me : default_choice(EV_SPIN, me, runnable_);
+    ++step_;
+    if (ch != me) {
+      fair_run_ = 0;
+      ++fair_switches_;
+      last_switch_step_ = step_ + 1;
+      switch_to(me, ch);
+    }
+    return;
+  }
   decision_ctx c{step_, k, me, options, 0};
   c.dflt = default_choice(k, me, options);
   int ch = strat_->decide(c);
